@@ -94,7 +94,30 @@ def run(facts, rep):
         if good == {'not const -> false', 'const -> const_term.is_one'}:
             rep.ok('E16.S2-is-one', inst, 'both arms as expected')
         else:
-            rep.violation('E16.S2-is-one', inst, 'One::is_one for PolyBase evaluates as %s' % sorted(good), where=o.where())
+            # by value: the answer as a function of (is_const(self), const_term(self).is_one())
+            from dtree import DTree, Stuck
+            dt_ = DTree(facts)
+            tbl = {}
+            try:
+                for C_ in (0, 1):
+                    for O_ in (0, 1):
+                        def atom(t, ev, C_=C_, O_=O_):
+                            s_ = sk(t).replace('&', '').replace('*', '')
+                            if s_ == 'is_const(arg1)':
+                                return (C_,)
+                            if t[0] == 'call' and t[1].split('::')[-1] == 'is_one' and 'const_term(arg1)' in s_:
+                                return (O_,)
+                            return None
+                        v_, _ = dt_.decide(o.defp, {1: 'SELF'}, atom)
+                        tbl[(C_, O_)] = bool(v_)
+            except (Stuck, KeyError, TypeError) as ex:
+                rep.indet('E16.S2: One::is_one for PolyBase outside the recognised fragment: %s' % str(ex)[:100])
+                tbl = None
+            if tbl is not None:
+                if tbl == {(c_, o_): bool(c_ and o_) for c_ in (0, 1) for o_ in (0, 1)}:
+                    rep.ok('E16.S2-is-one', inst, 'is_const && const_term().is_one() (by value)')
+                else:
+                    rep.violation('E16.S2-is-one', inst, 'One::is_one for PolyBase answers %s as a function of (is_const, const_term().is_one())' % tbl, where=o.where())
     # S3
     ms = facts.find(r'^yui::<types::poly::poly::PolyBase<X, R> as std::ops::MulAssign<&types::poly::poly::PolyBase<X, R>>>::mul_assign$')
     inst = 'PolyBase::mul_assign|guards paired with their shortcuts'
@@ -123,10 +146,13 @@ def run(facts, rep):
         else:
             arms.add('UNRECOGNISED %s' % (conds,))
     want = {'one:untouched', 'rhs-const:scale', 'self-const:rhs*c', 'general:lc-product'}
+    known_calls = ("[('mul_assign', ('*arg1', 'const_term(arg2)'))]", "[('mul', ('arg2', 'const_term(arg1)'))]", "[('mul_assign', ('*arg1.data', '&*arg2.data'))]", '[]')
     if arms == want:
         rep.ok('E16.S3-mul-shortcuts', inst, ', '.join(sorted(arms)))
+    elif any(a.startswith('UNRECOGNISED') for a in arms) or any('?' in a and a.split('?', 1)[1] not in known_calls for a in arms):
+        rep.indet('E16.S3: PolyBase::mul_assign outside the recognised fragment: %s' % sorted(arms))
     else:
-        rep.violation('E16.S3-mul-shortcuts', inst, 'PolyBase::mul_assign has arms %s; expected %s' % (sorted(arms), sorted(want)), where=m.where())
+        rep.violation('E16.S3-mul-shortcuts', inst, 'PolyBase::mul_assign pairs a guard with the shortcut of another one: arms %s; expected %s' % (sorted(arms), sorted(want)), where=m.where())
 
 
 def check_sub_negates(facts, rep):
